@@ -6,3 +6,7 @@ open AC.Props.C01
 #print axioms C01_primitive_ok
 #print axioms C01_dictsum
 #print axioms C01_assemble
+#print axioms C01_execute_of_find
+#print axioms C01_total_binary
+#print axioms C01_total_heuristic
+#print axioms C01_total_opt
